@@ -34,4 +34,9 @@ CHECKS = {
         "note": "Hypothesis NoEarlierClaimer: schemes before the disabled hasher do not claim marker-led/empty strings (checked for shipped contexts under C17). Multi-character custom markers (using(marker='!locked')) are outside the two marker styles the property names.",
         "design_ref": "DESIGN.md §5 C18",
     },
+    "C09": {
+        "text": "Theorems about a statement-order model of HasRounds.using() (Python truthiness of None/0 included): strict mode refuses every value outside the hard limits, relaxed mode clamps to the nearest limit, whatever a call sets lies inside the hard limits and the rest is inherited; a window given in one call is ordered; the default is clipped into the window; generated costs (optional variation, every random draw) stay inside an ordered window and are never flagged by the hasher's own update check; update check = outside window; every registered hasher's declared limits are sane (decide over the reflected registry); class-table frame theorem: any chain/interleaving of using() calls leaves attribute resolution of every pre-existing class unchanged. Two counterexample theorems pin the recorded findings. Correspondence: 10 real hashers x chains of using() x values inside/at/beyond limits x relaxed x int/str, generated rounds under a controlled RNG, update checks, attribute snapshots of all pre-existing classes.",
+        "note": "Float vary_rounds enters as the integer the interpreter computes (atom); log2-cost + float vary is explored on the real code only. salt_size/ident/truncate_error customisation is explored by the search oracle and the attribute snapshots, not modelled in Lean yet. Open finding: chained using() can invert the window (the pinned suite requires that behaviour).",
+        "design_ref": "DESIGN.md §5 C09",
+    },
 }
